@@ -3,6 +3,7 @@ package rules
 import (
 	"fmt"
 	"runtime/debug"
+	"strings"
 
 	"verif/checker/internal/core"
 )
@@ -12,6 +13,24 @@ type Rule struct {
 	Name string
 	Doc  string
 	Run  func(c *core.Ctx)
+	// Keep, when set, restricts the rule to the constructs a property is about:
+	// obligations and findings on other constructs are dropped (they belong to
+	// the property that owns the rule unrestricted).
+	Keep func(c *core.Ctx, construct string) bool
+}
+
+// scoped derives a restricted variant of a rule.
+func scoped(r *Rule, scope string, keep func(c *core.Ctx, construct string) bool) *Rule {
+	return &Rule{Name: r.Name, Doc: r.Doc + " [in this property restricted to: " + scope + "]", Run: r.Run, Keep: keep}
+}
+
+func containsAny(s string, subs ...string) bool {
+	for _, x := range subs {
+		if strings.Contains(s, x) {
+			return true
+		}
+	}
+	return false
 }
 
 // Prop describes what is decided for one property.
@@ -50,5 +69,22 @@ func RunRule(c *core.Ctx, r *Rule) {
 			c.Note("panic in %s: %v\n%s", r.Name, e, debug.Stack())
 		}
 	}()
+	o0, f0 := len(c.Obligs), len(c.Findings)
 	r.Run(c)
+	if r.Keep != nil {
+		obs := c.Obligs[:o0]
+		for _, o := range c.Obligs[o0:] {
+			if r.Keep(c, o.Construct) {
+				obs = append(obs, o)
+			}
+		}
+		c.Obligs = obs
+		fs := c.Findings[:f0]
+		for _, f := range c.Findings[f0:] {
+			if f.Kind == core.Internal || r.Keep(c, f.Construct) {
+				fs = append(fs, f)
+			}
+		}
+		c.Findings = fs
+	}
 }
